@@ -273,48 +273,20 @@ pub fn apply(te: &Te, model: &mut RefModel, op: &TOp, rt: Option<&tokio::runtime
 
 /// Issue every read flavour for every id and compare with the model.
 pub fn check_reads(te: &Te, model: &RefModel, ids: &[u64]) -> Result<u64, (String, String)> {
+    check_reads_first(te, model, ids, 0)
+}
+
+/// Read flavours: 0 query, 1 get_document_with_metadata, 2 get_embedding_cache_aware,
+/// 3 get_metadata, 4 exists, 5 bulk_query(with embeddings), 6 bulk_query(without).
+/// `first` is issued FIRST for every id (then the rest in order): reads are not neutral — a point
+/// query that meets a stale or corrupted copy scrubs it — so a flavour only ever sees such a copy
+/// when it is the first to touch it.
+pub fn check_reads_first(te: &Te, model: &RefModel, ids: &[u64], first: u8) -> Result<u64, (String, String)> {
     let metric = te.cfg.metric();
     let e = &te.engine;
     let mut n = 0u64;
     let vec_ok = |got: &Vec<f32>, want: &Vec<f32>| stored_matches_input(metric, &bits(got), want);
-    for &id in ids {
-        let want = model.docs.get(&id);
-        // query
-        n += 1;
-        match (e.query(id, None), want) {
-            (None, None) => {}
-            (Some(g), Some((v, _))) if vec_ok(&g, v) => {}
-            (g, w) => return Err(("query".into(), format!("query({id}) = {g:?}, model {:?}", w.map(|x| &x.0)))),
-        }
-        // get_document_with_metadata
-        n += 1;
-        match (e.get_document_with_metadata(id), want) {
-            (None, None) => {}
-            (Some((g, gm)), Some((v, m))) if vec_ok(&g, v) && &to_meta(&gm) == m => {}
-            (g, w) => return Err(("get_document_with_metadata".into(), format!("get_document_with_metadata({id}) = {g:?}, model {w:?}"))),
-        }
-        // get_embedding_cache_aware
-        n += 1;
-        match (e.get_embedding_cache_aware(id), want) {
-            (None, None) => {}
-            (Some(g), Some((v, _))) if vec_ok(&g, v) => {}
-            (g, w) => return Err(("get_embedding_cache_aware".into(), format!("get_embedding_cache_aware({id}) = {g:?}, model {:?}", w.map(|x| &x.0)))),
-        }
-        // get_metadata
-        n += 1;
-        match (e.get_metadata(id), want) {
-            (None, None) => {}
-            (Some(gm), Some((_, m))) if &to_meta(&gm) == m => {}
-            (g, w) => return Err(("get_metadata".into(), format!("get_metadata({id}) = {g:?}, model {:?}", w.map(|x| &x.1)))),
-        }
-        // exists
-        n += 1;
-        if e.exists(id) != want.is_some() {
-            return Err(("exists".into(), format!("exists({id}) = {}, model {}", e.exists(id), want.is_some())));
-        }
-    }
-    for include in [true, false] {
-        n += 1;
+    let bulk = |include: bool| -> Result<(), (String, String)> {
         let res = e.bulk_query(ids, include);
         for (i, &id) in ids.iter().enumerate() {
             let want = model.docs.get(&id);
@@ -329,6 +301,58 @@ pub fn check_reads(te: &Te, model: &RefModel, ids: &[u64]) -> Result<u64, (Strin
                 (g, w) => return Err(("bulk_query".into(), format!("bulk_query({ids:?},{include})[{id}] = {g:?}, model {w:?}"))),
             }
         }
+        Ok(())
+    };
+    if first == 5 || first == 6 {
+        n += 1;
+        bulk(first == 5)?;
+    }
+    let point = |flavour: u8, id: u64| -> Result<(), (String, String)> {
+        let want = model.docs.get(&id);
+        match flavour {
+            0 => match (e.query(id, None), want) {
+                (None, None) => Ok(()),
+                (Some(g), Some((v, _))) if vec_ok(&g, v) => Ok(()),
+                (g, w) => Err(("query".into(), format!("query({id}) = {g:?}, model {:?}", w.map(|x| &x.0)))),
+            },
+            1 => match (e.get_document_with_metadata(id), want) {
+                (None, None) => Ok(()),
+                (Some((g, gm)), Some((v, m))) if vec_ok(&g, v) && &to_meta(&gm) == m => Ok(()),
+                (g, w) => Err(("get_document_with_metadata".into(), format!("get_document_with_metadata({id}) = {g:?}, model {w:?}"))),
+            },
+            2 => match (e.get_embedding_cache_aware(id), want) {
+                (None, None) => Ok(()),
+                (Some(g), Some((v, _))) if vec_ok(&g, v) => Ok(()),
+                (g, w) => Err(("get_embedding_cache_aware".into(), format!("get_embedding_cache_aware({id}) = {g:?}, model {:?}", w.map(|x| &x.0)))),
+            },
+            3 => match (e.get_metadata(id), want) {
+                (None, None) => Ok(()),
+                (Some(gm), Some((_, m))) if &to_meta(&gm) == m => Ok(()),
+                (g, w) => Err(("get_metadata".into(), format!("get_metadata({id}) = {g:?}, model {:?}", w.map(|x| &x.1)))),
+            },
+            _ => {
+                if e.exists(id) != want.is_some() {
+                    Err(("exists".into(), format!("exists({id}) = {}, model {}", e.exists(id), want.is_some())))
+                } else {
+                    Ok(())
+                }
+            }
+        }
+    };
+    for &id in ids {
+        let mut order: Vec<u8> = vec![0, 1, 2, 3, 4];
+        if first < 5 {
+            order.retain(|f| *f != first);
+            order.insert(0, first);
+        }
+        for f in order {
+            n += 1;
+            point(f, id)?;
+        }
+    }
+    for include in [true, false] {
+        n += 1;
+        bulk(include)?;
     }
     Ok(n)
 }
